@@ -47,7 +47,7 @@ def field_of(e):
     return None
 
 
-def pred(cond, label):
+def pred(cond, label, b=None, bb=None):
     """condition over one state field -> (field, test, truth) or None"""
     if isinstance(cond, tuple) and cond and cond[0] == 'variant':
         f = field_of(cond[1])
@@ -56,7 +56,18 @@ def pred(cond, label):
         if label in ('Some', 'None'):
             return (f, ('some',), label == 'Some')
         if isinstance(label, str):
-            return (f, ('variant', label), True)
+            return (f, ('vin', frozenset([label])), True)
+        if isinstance(label, tuple) and all(isinstance(x, str) for x in label):
+            return (f, ('vin', frozenset(label)), True)
+        if label is None and b is not None and bb is not None:
+            # the otherwise edge of a match on the field: none of the listed variants
+            listed = set()
+            for lab_, tgt in switch_edges(b, bb):
+                v = variant_of_edge(b, bb, lab_)
+                if v is not None and lab_ != 'else':
+                    listed.add(v)
+            if listed and 'None' not in listed and 'Some' not in listed:
+                return (f, ('vin', frozenset(listed)), False)
         return None
     if not isinstance(label, bool):
         return None
@@ -73,6 +84,59 @@ def pred(cond, label):
         f = field_of(cond[2])
         if f is not None:
             return (f, ('eq', cond[3][1]), label == (cond[1] == 'Eq'))
+    # derived PartialEq on a fieldless state enum against a promoted constant: <State as PartialEq>::eq(&self.f, &CONST)
+    if cond[0] == 'call' and short(cond[1]) in ('eq', 'ne') and 'PartialEq' in (cond[1] or '') and len(cond[2]) == 2 and FACTS[0] is not None:
+        f = field_of(cond[2][0])
+        k = strip_ref(cond[2][1])
+        if k[0] == 'cptr':
+            k = ('deref', k)
+        if f is not None and k[0] == 'deref' and k[1][0] == 'cptr':
+            adt = cond[1].split('<', 1)[1].split(' as ', 1)[0] if cond[1].startswith('<') else field_adt(FACTS[0], b, f)
+            vn = const_variant(FACTS[0], adt, k[1]) if adt else None
+            if vn is not None:
+                return (f, ('vin', frozenset([vn])), label == (short(cond[1]) == 'eq'))
+    return None
+
+
+FACTS = [None]
+
+
+def field_adt(facts, b, fld):
+    """ADT name of the type of field `fld` of the struct `self` points to"""
+    if b is None:
+        return None
+    ty = b.locals[1]['ty'].replace('&mut ', '').replace('&', '').strip()
+    a = facts.adts.get(ty)
+    if not a:
+        return None
+    for fd in a['variants'][0]['fields']:
+        if fd['name'] == fld:
+            return fd['ty']
+    return None
+
+
+def const_variant(facts, adt, cptr):
+    """variant name of a promoted constant of a fieldless enum"""
+    import json as _json
+    a = facts.adts.get(adt)
+    if not a or a.get('kind') != 'enum':
+        return None
+    try:
+        ref = _json.loads(cptr[1])
+    except Exception:
+        return None
+    if 'mem' not in ref:
+        return None
+    try:
+        raw = facts.mem_bytes(ref['mem'])
+    except Exception:
+        return None
+    if not raw:
+        return None
+    d = int.from_bytes(raw[cptr[2]:cptr[2] + 1], 'little')
+    for v in a['variants']:
+        if v.get('discr') == d and not v['fields']:
+            return v['name']
     return None
 
 
@@ -80,12 +144,35 @@ def consistent(P, Q):
     for (f, t), v in Q.items():
         if (f, t) in P and P[(f, t)] != v:
             return False
-    # Option / equality interplay is left alone (different tests on one field are not compared)
+    # variant sets and equalities on one field
+    for (f, t), v in Q.items():
+        for (f2, t2), v2 in P.items():
+            if f2 != f or t2 == t:
+                continue
+            if t[0] == 'vin' and t2[0] == 'vin':
+                A, Bs = t[1], t2[1]
+                if v and v2 and not (A & Bs):
+                    return False
+                if v and not v2 and A <= Bs:
+                    return False
+                if v2 and not v and Bs <= A:
+                    return False
+            if t[0] == 'eq' and t2[0] == 'eq' and v and v2 and t[1] != t2[1]:
+                return False
     return True
 
 
 class Unknown(Exception):
     pass
+
+
+def merge(p1, p2):
+    """union of two predicate sets, None if they contradict each other"""
+    if not consistent(p1, p2) or not consistent(p2, p1):
+        return None
+    d = dict(p1)
+    d.update(p2)
+    return d
 
 
 class QueryEval:
@@ -112,13 +199,8 @@ class QueryEval:
                     if rv is None:
                         raise Unknown('no return value')
                     for pr2, val in self.ev(rv, args, b):
-                        merged = dict(preds)
-                        ok = True
-                        for k, v in pr2.items():
-                            if k in merged and merged[k] != v:
-                                ok = False
-                            merged[k] = v
-                        if ok:
+                        merged = merge(preds, pr2)
+                        if merged is not None:
                             out.append((merged, val))
         finally:
             self.depth -= 1
@@ -131,16 +213,14 @@ class QueryEval:
             if e[0] != 'cond':
                 continue
             cond, lab = e[1], e[2]
-            pr = pred(cond, lab)
+            pr = pred(cond, lab, b, e[3])
             if pr is not None and self.is_self(args):
                 f, t, v = pr
                 new = []
                 for a in alts:
-                    if (f, t) in a and a[(f, t)] != v:
-                        continue
-                    a2 = dict(a)
-                    a2[(f, t)] = v
-                    new.append(a2)
+                    a2 = merge(a, {(f, t): v})
+                    if a2 is not None:
+                        new.append(a2)
                 alts = new
                 continue
             # concrete condition
@@ -154,9 +234,9 @@ class QueryEval:
                         if not (is_some or is_none):
                             raise Unknown('variant test on a non-Option value')
                         if (lab == 'Some') == is_some:
-                            a2 = dict(a)
-                            a2.update(pr2)
-                            new.append(a2)
+                            a2 = merge(a, pr2)
+                            if a2 is not None:
+                                new.append(a2)
                 alts = new
                 continue
             if isinstance(lab, bool):
@@ -167,9 +247,9 @@ class QueryEval:
                         if not isinstance(val, (int, bool)):
                             raise Unknown('branch on a non-constant')
                         if bool(val) == lab:
-                            a2 = dict(a)
-                            a2.update(pr2)
-                            new.append(a2)
+                            a2 = merge(a, pr2)
+                            if a2 is not None:
+                                new.append(a2)
                 alts = new
                 continue
             raise Unknown('unrecognised branch %r' % (cond,))
@@ -215,9 +295,9 @@ class QueryEval:
                         v = {'Eq': a == c, 'Ne': a != c, 'Lt': a < c, 'Le': a <= c, 'Gt': a > c, 'Ge': a >= c}[op]
                     else:
                         raise Unknown('operator %s' % op)
-                    d = dict(p1)
-                    d.update(p2)
-                    out.append((d, v))
+                    d = merge(p1, p2)
+                    if d is not None:
+                        out.append((d, v))
             return out
         if k == 'cast':
             f = field_of(e[2])
@@ -255,9 +335,9 @@ class QueryEval:
                         else:
                             r = {'checked_add': a + c, 'checked_mul': a * c, 'checked_div': a // c if c else 0, 'checked_sub': a - c}[s]
                             v = None if r < 0 or r >= (1 << 64) else ('Some', r)
-                        d = dict(p1)
-                        d.update(p2)
-                        out.append((d, v))
+                        d = merge(p1, p2)
+                        if d is not None:
+                            out.append((d, v))
                 return out
             if self.f.body(fn) is not None:
                 # crate-local helper: inline with evaluated arguments
@@ -272,21 +352,20 @@ class QueryEval:
                 for combo in arg_alts:
                     preds0 = {}
                     for p1, _ in combo:
-                        preds0.update(p1)
+                        preds0 = merge(preds0, p1) if preds0 is not None else None
+                    if preds0 is None:
+                        continue
                     vals = [v for _, v in combo]
                     for p2, v in self.alternatives(fn, vals):
-                        d = dict(preds0)
-                        clash = any(k2 in d and d[k2] != v2 for k2, v2 in p2.items())
-                        if clash:
-                            continue
-                        d.update(p2)
-                        out.append((d, v))
+                        d = merge(preds0, p2)
+                        if d is not None:
+                            out.append((d, v))
                 return out
             raise Unknown('call to %s' % fn)
         raise Unknown('expression kind %s' % k)
 
 
-def entry_demands(f, b, sink):
+def entry_demands(f, b, sink, exits=None):
     """-> list of dict(P, n_min, demand, written, cap, check_bb, blocks) for entry paths that end in a failed space test"""
     S = SINKS[sink]
     out = []
@@ -299,9 +378,12 @@ def entry_demands(f, b, sink):
         if end[0] != 'return':
             continue
         p = summarize(b, blks, end)
+        if any(e[0] == 'cond' and isinstance(e[1], tuple) and e[1] and e[1][0] == 'c' and isinstance(e[2], bool) and bool(e[1][1]) != e[2] for e in p.events):
+            continue      # branch on a constant taken the wrong way (cfg!(debug_assertions))
         rv = p.env.get(0)
-        if rv is None or rv[0] != 'agg' or not rv[2] or variant_name(rv[2][0]) != 'OutputFull':
+        if rv is None or rv[0] != 'agg' or not rv[2] or variant_name(rv[2][0]) not in (('OutputFull', 'Malformed') if exits is not None else ('OutputFull',)):
             continue
+        is_mal = variant_name(rv[2][0]) == 'Malformed'
         stored = {}
         P = {}
         n_min = 0
@@ -310,6 +392,8 @@ def entry_demands(f, b, sink):
         check_bb = None
         feasible = True
         weird = False
+        unread = False
+        exhausted = False
         pending_check = None
         for ev in p.events:
             if ev[0] == 'store':
@@ -321,6 +405,9 @@ def entry_demands(f, b, sink):
             if ev[0] == 'call':
                 fn = ev[1] or ''
                 s = short(fn)
+                if s == 'unread' and 'UnreadHandle' in fn:
+                    n_min -= 1
+                    unread = True
                 if fn.startswith(S['dest']) and s.startswith('check_space'):
                     pending_check = (('call', fn, ev[2], ev[3]), S['cap'].get(s))
                 elif fn.startswith('handles::') and s.startswith('write_') and 'Handle' in fn:
@@ -338,6 +425,10 @@ def entry_demands(f, b, sink):
             if isinstance(cond, tuple) and cond and cond[0] == 'variant' and cond[1][0] == 'call':
                 cf = cond[1][1] or ''
                 cs = short(cf)
+                if cs.startswith('copy_') and lab == 'Some':
+                    weird = True      # a bulk copy that itself reports an error has consumed an unknown amount
+                if cs == 'check_available' and lab == 'Full':
+                    exhausted = True
                 if cs == 'check_available' and lab == 'Available':
                     n_min += 1
                 elif cs.startswith('copy_ascii') and lab == 'GoOn':
@@ -347,28 +438,42 @@ def entry_demands(f, b, sink):
                         cap = pending_check[1]
                         check_bb = ev[3]
                 continue
-            pr = pred(cond, lab)
+            pr = pred(cond, lab, b, ev[3])
             if pr is None:
                 continue
             fld, t, v = pr
             if fld in stored:
                 sv = stored[fld]
-                known = None
-                if t == ('bool',) and sv[0] == 'c':
-                    known = bool(sv[1])
-                elif t == ('some',) and sv[0] == 'agg':
-                    known = variant_name(sv) == 'Some'
-                elif t[0] == 'eq' and sv[0] == 'c':
-                    known = sv[1] == t[1]
+                known = stored_truth(t, sv)
                 if known is not None and known != v:
                     feasible = False
                     break
                 continue
-            if (fld, t) in P and P[(fld, t)] != v:
+            if merge(P, {(fld, t): v}) is None:
                 feasible = False
                 break
             P[(fld, t)] = v
         if not feasible:
+            continue
+        if is_mal:
+            if weird:
+                continue
+            # abstract state the call leaves behind: entry conditions overridden by the final stores
+            after = {k_: v_ for k_, v_ in P.items() if k_[0] not in stored}
+            known_fields = set()
+            for fld, sv in stored.items():
+                for t in (('bool',), ('some',)):
+                    k = stored_truth(t, sv)
+                    if k is not None:
+                        after[(fld, t)] = k
+                        known_fields.add(fld)
+                if sv[0] == 'c':
+                    after[(fld, ('eq-const',))] = sv[1]
+                    known_fields.add(fld)
+                if sv[0] == 'agg' and variant_name(sv):
+                    after[(fld, ('variant-is',))] = variant_name(sv)
+                    known_fields.add(fld)
+            exits.append({'P': P, 'n': n_min, 'written': written, 'after': after, 'stored': stored, 'blocks': blks, 'exhausted': exhausted})
             continue
         if cap is None or weird:
             undecided += 1
@@ -385,6 +490,8 @@ def stored_truth(t, sv):
         return variant_name(sv) == 'Some'
     if t[0] == 'eq' and sv[0] == 'c':
         return sv[1] == t[1]
+    if t[0] == 'vin' and sv[0] == 'agg' and variant_name(sv):
+        return variant_name(sv) in t[1]
     return None
 
 
@@ -432,12 +539,98 @@ def may_be_left_in(exits, state):
     return False
 
 
+def _tstr(t):
+    if t == ('bool',):
+        return ''
+    if t == ('some',):
+        return '.is_some'
+    if t[0] == 'vin':
+        return ' in {%s}' % ','.join(sorted(t[1]))
+    return '==%s' % (t[1],)
+
+
 def pstr(P):
+    return ', '.join('%s%s%s' % ('' if v else '!', f, _tstr(t)) for (f, t), v in sorted(P.items(), key=repr)) or 'any state'
+
+
+def pstr_old(P):
     return ', '.join('%s%s%s' % ('' if v else '!', f, '' if t == ('bool',) else ('.is_some' if t == ('some',) else '==%s' % (t[1],))) for (f, t), v in sorted(P.items(), key=repr)) or 'any state'
+
+
+REPL = {'utf16': ('max_utf16_buffer_length', 1), 'utf8': ('max_utf8_buffer_length', 3)}
+
+
+def implied(E, P2):
+    """does the state a Malformed exit leaves behind decide every entry condition of the second path, and to the required value?"""
+    for (fld, t), v in P2.items():
+        if fld in E['stored']:
+            sv = E['stored'][fld]
+            k = stored_truth(t, sv)
+            if k is None or k != v:
+                return False
+        else:
+            if (fld, t) not in E['P'] or E['P'][(fld, t)] != v:
+                return False
+    return True
+
+
+def chains(rep, f, c, rule, D, sink, b, dem, mal, exits, nchain):
+    qname, e_units = REPL[sink]
+    qfn = '%s::%s' % (D, qname)
+    if f.body(qfn) is None:
+        return
+    seen = set()
+    cache = {}
+    for E in mal:
+        for d in dem:
+            if not implied(E, d['P']):
+                continue
+            if E['exhausted'] and d['n_min'] > 0:
+                continue      # the first call ran to the end of the stream: nothing follows
+            n_tot = E['n'] + d['n_min']
+            need = E['written'] + e_units + d['demand']
+            key = '%s:%s:chain [%s] -%d byte(s), %d stored, error-> [%s] n>=%d demand=%d' % (D, sink, pstr(E['P']), E['n'], E['written'], pstr(d['P']), d['n_min'], d['demand'])
+            if key in seen or n_tot < 0:
+                continue
+            seen.add(key)
+            if n_tot not in cache:
+                try:
+                    cache[n_tot] = QueryEval(f).alternatives(qfn, ['SELF', n_tot])
+                except (Unknown, OverflowError, RecursionError):
+                    cache[n_tot] = None
+            alts = cache[n_tot]
+            if alts is None:
+                continue
+            vals = []
+            for preds, val in alts:
+                if consistent(E['P'], preds):
+                    vals.append((None if val is None else val[1] if isinstance(val, tuple) else val, preds))
+            if not vals or any(v is None for v, _ in vals):
+                continue
+            bad = None
+            best = max(v for v, _ in vals)
+            if best < need:
+                bad = (best, dict(E['P']))
+            else:
+                for v, preds in vals:
+                    if v < need:
+                        full = dict(E['P'])
+                        full.update(preds)
+                        if may_be_left_in(exits, full):
+                            bad = (v, full)
+                            break
+            nchain[0] += 1
+            rep.ob(rule + '.chain', key, bad is None,
+                   'with replacement: a call entered in the state [%s] with %d byte(s) stores %d unit(s) and reports a malformed sequence (the wrapper adds U+FFFD: %d), '
+                   'leaving the state [%s]; continuing there needs %d more with %d further byte(s): %d in total, but %s(%d) = %s' %
+                   (pstr(bad[1]) if bad else '', E['n'], E['written'], e_units, pstr(d['P']), d['demand'], d['n_min'], need, qname, n_tot, bad[0] if bad else ''),
+                   sp_str(b.blocks[d['bb']]['tsp']) if d['bb'] is not None else sp_str(b.raw['span']), {'need': need, 'n': n_tot}, c)
 
 
 def run(rep, f, c, rule='R-ENTRYCOST'):
     n = und = 0
+    nchain = [0]
+    FACTS[0] = f
     for D in DECODERS:
         for sink, S in SINKS.items():
             dfn = '%s::decode_to_%s_raw' % (D, sink)
@@ -446,12 +639,14 @@ def run(rep, f, c, rule='R-ENTRYCOST'):
             if b is None or f.body(qfn) is None:
                 rep.undecidable(rule, '%s:%s' % (D, sink), 'decode body or query not found', None, c)
                 continue
-            dem, u = entry_demands(f, b, sink)
+            mal = []
+            dem, u = entry_demands(f, b, sink, exits=mal)
             exits = exit_states(b)
             if dem is None:
                 und += 1
                 continue
             und += u
+            chains(rep, f, c, rule, D, sink, b, dem, mal, exits, nchain)
             seen = set()
             for d in dem:
                 key = '%s:%s:%s:n>=%d:demand=%d' % (D, sink, pstr(d['P']), d['n_min'], d['demand'])
@@ -495,6 +690,7 @@ def run(rep, f, c, rule='R-ENTRYCOST'):
                        'a call entered in the state [%s] with >= %d byte(s) of input stores %d unit(s) and then asks for %d more, but %s(%d) = %s there, and the '
                        'final stores of a decode path can leave the decoder in that state: a buffer of the queried size is refused with OutputFull' %
                        (pstr(bad[1]) if bad else '', d['n_min'], d['written'], d['cap'], S['query'], d['n_min'], bad[0] if bad else ''), site_, ex_, c)
+    rep.count('entrycost.chain.decided:%s' % c, nchain[0])
     rep.count('entrycost.decided:%s' % c, n)
     rep.count('entrycost.undecided:%s' % c, und)
     return n, und
